@@ -139,9 +139,9 @@ class Report:
         for o, k in knownhits:
             print('KNOWN-FINDING: property=%s %s [%s] %s' % (self.pid, k.get('what', o['key']), o['rule'], o.get('loc') or ''))
         for o in inconc:
-            print('INCONCLUSIVE %s %s %s: %s' % (o['rule'], o['symbol'], o.get('loc') or '', o['detail']))
+            print('INCONCLUSIVE %s %s %s: %s' % (o['rule'], o['symbol'], o.get('loc') or '', o['detail'][:500]))
         for o in viol:
-            print('violation %s %s %s: %s' % (o['rule'], o['symbol'], o.get('loc') or '', o['detail']))
+            print('violation %s %s %s: %s' % (o['rule'], o['symbol'], o.get('loc') or '', o['detail'][:500]))
         if viol:
             print('VIOLATION property=%s replay=%s' % (self.pid, replay))
             return 1
